@@ -32,7 +32,7 @@ OPTION_GRID = []
 for indent in (2, 4, "\t"):
     for desc in (True, False):
         for intro in (False, False, True):
-            for custom in (False, True, ["dirX"]):
+            for custom in (False, True, ["tagA"], ["tagB"]):
                 OPTION_GRID.append({"indent": indent, "include_descriptions": desc, "include_introspection": intro,
                                     "include_custom_schema_directives": custom})
 
@@ -98,6 +98,9 @@ def make_schema(key, hostile=False):
         schema, _ = S.build_code_schema(ir)
     else:
         view = canon.sdl_view(ir)
+        # type-system directives applied to types and members (only SDL-built schemas carry them)
+        S.apply_schema_directives(view, random.Random("applied:" + key))
+        ir.directives["tagA"], ir.directives["tagB"] = view.directives["tagA"], view.directives["tagB"]
         schema = py_gql.build_schema(S.to_sdl(view)[0])
     return ir, schema, mode
 
